@@ -40,11 +40,23 @@ Proof.
 Qed.
 Print Assumptions gen_ntp_ValidateResponseMetadata_eq.
 
-(* ValidateResponseTimestamps is the pair of tests the model makes in process_response
-   (E_clock for the first, E_response for the second) *)
+(* ValidateResponseTimestamps is the model's named function Exchange.timestamps_ok (which
+   process_response calls), error values mapped to the model's error classes *)
+Definition err_of_class (e : Z) : Z :=
+  if e =? Exchange.E_clock then Gen.err_ntp_errUnexpectedClockBehavior
+  else if e =? Exchange.E_response then Gen.err_ntp_errUnexpectedResponse
+  else 0.
+
 Lemma gen_ntp_ValidateResponseTimestamps_eq : forall t0 t1 t2 t3,
-  Gen.ntp_ValidateResponseTimestamps t0 t1 t2 t3 =
-  if NtpTime.time_sub t3 t0 <? 0 then Gen.err_ntp_errUnexpectedClockBehavior
-  else if NtpTime.time_sub t2 t1 <? 0 then Gen.err_ntp_errUnexpectedResponse else 0.
-Proof. intros. unfold Gen.ntp_ValidateResponseTimestamps. goraw. reflexivity. Qed.
+  Gen.ntp_ValidateResponseTimestamps t0 t1 t2 t3 = err_of_class (Exchange.timestamps_ok t0 t1 t2 t3).
+Proof.
+  intros.
+  assert (H : Gen.ntp_ValidateResponseTimestamps t0 t1 t2 t3 =
+              if NtpTime.time_sub t3 t0 <? 0 then Gen.err_ntp_errUnexpectedClockBehavior
+              else if NtpTime.time_sub t2 t1 <? 0 then Gen.err_ntp_errUnexpectedResponse else 0)
+    by (unfold Gen.ntp_ValidateResponseTimestamps; goraw; reflexivity).
+  rewrite H. unfold Exchange.timestamps_ok, err_of_class.
+  destruct (NtpTime.time_sub t3 t0 <? 0); [reflexivity|].
+  destruct (NtpTime.time_sub t2 t1 <? 0); reflexivity.
+Qed.
 Print Assumptions gen_ntp_ValidateResponseTimestamps_eq.
